@@ -36,7 +36,10 @@ def step (s : Unit) (f : List String) : Unit × String :=
       -- interim (1xx) responses are passed on to the client as they arrive (`Got1xxResponse`); an upstream
       -- pass-through middleware changes nothing
       let pre := match Driver.kv f "pre" with | some p => if p = "" then "" else " pre=" ++ p | none => ""
-      some (squeeze ((if out.2.1 then toString back.status ++ pre ++ " body=" ++ back.body ++ " H " ++ showHdr back.header clientDrop
+      -- hold=1 (a stream that is silent after its head; undeclared length): the proxy flushes the head at once
+      -- (`httputil.ReverseProxy.flushInterval` is negative for `ContentLength == -1`), whatever pass-through middleware is upstream
+      let hold := if Driver.kvNat f "hold" 0 == 1 then "head=early " else ""
+      some (squeeze (hold ++ (if out.2.1 then toString back.status ++ pre ++ " body=" ++ back.body ++ " H " ++ showHdr back.header clientDrop
                       else "aborted")
         ++ tail out.2.2 (toString back.status)))
     (s, r.getD "bad-op")
